@@ -52,7 +52,8 @@ class AggCase:
             elif lf.bf is not None or lf.ty.kind == 'int':
                 lines.append('  printf(" %%lx", (unsigned long)(long)%s);' % acc)
             elif lf.ty.kind == 'ptr':
-                lines.append('  printf(" %%ld", (%s >= @buf && %s < @buf + 64) ? (long)(%s - @buf) : -2L);' % (acc, acc, acc))
+                # pointers into @buf print as offsets; the small integer-valued pointers stored into union members print as -(value) - 10
+                lines.append('  printf(" %%ld", (%s >= @buf && %s < @buf + 64) ? (long)(%s - @buf) : (unsigned long)%s - 1 < 0xffffUL ? -(long)(unsigned long)%s - 10 : -2L);' % (acc, acc, acc, acc, acc))
             else:
                 n = {'float': 4, 'double': 8, 'long double': 10}[lf.ty.cname]
                 lines.append('  printf(" "); HX((const void *)&%s, %d);' % (acc, n))
@@ -145,7 +146,7 @@ class AggCase:
                 if isint:
                     op = '%s = %s;' % (tgt, ival(ch))
                 elif lf.ty.kind == 'ptr':
-                    op = '%s = @buf + %d;' % (tgt, ch.int(0, 63))
+                    op = '%s = %s;' % (tgt, pval(lf, ch.int(0, 63)))
                 else:
                     op = '%s = %s;' % (tgt, fval(ch))
                 if lf.bf is not None:
@@ -170,7 +171,7 @@ class AggCase:
                     op = '%s = %s;' % (tgt, self.spell(base if ch.bool() else base2, lf2.path))
                     self.feat.add('leaf-copy')
                 else:
-                    op = '%s = %s;' % (tgt, ival(ch) if isint else ('@buf + 1' if lf.ty.kind == 'ptr' else fval(ch)))
+                    op = '%s = %s;' % (tgt, ival(ch) if isint else (pval(lf, 1) if lf.ty.kind == 'ptr' else fval(ch)))
             elif k < 18:
                 form = ch.int(0, 4)
                 a, b = ('%s.o' % W, '%s.o2' % W) if ch.bool() else ('%s.o2' % W, '%s.o' % W)
@@ -183,7 +184,7 @@ class AggCase:
                 op = '%s = %s;' % (self.spell(a, pth), self.spell(b, pth))
                 self.feat.add('subagg-assign'); self.nt = True
             else:
-                op = '%s = %s;' % (tgt, ival(ch) if isint else ('@buf' if lf.ty.kind == 'ptr' else fval(ch)))
+                op = '%s = %s;' % (tgt, ival(ch) if isint else (pval(lf, 0) if lf.ty.kind == 'ptr' else fval(ch)))
             steps.append('  %s\n  printf("@ %d:"); @dump(p); printf(" |"); @dump(q); printf(" | %%lx %%lx %%lx\\n", %s.c0, %s.c1, %s.c2);' % (op, st, W, W, W))
         # value of a conditional / assignment lvalue member (read only)
         if ch.int(0, 3) == 0:
@@ -316,6 +317,12 @@ def gen_dyn(ch):
     return diffprog.Case(decls=decls, body=bodytxt, nt=nt, tags=sorted(feat))
 
 
+def pval(lf, n):
+    """a pointer value to store in leaf lf: an address inside @buf, except where a union lets other members read the same bytes -
+    an address differs from one compiler's image to the next, so there the value is a small integer converted to a pointer"""
+    return '@buf + %d' % n if not lf.unions else '(char *)%dUL' % (n * 1021 + 1)
+
+
 def gen_align(ch, excl):
     """alignment of automatic objects (arrays >= 16 bytes, _Alignas) observed from several call depths."""
     objs = []
@@ -323,8 +330,15 @@ def gen_align(ch, excl):
     for i in range(ch.int(1, 5)):
         k = ch.int(0, 3)
         if k == 0:
-            n = ch.choice([16, 17, 24, 32, 100])
-            objs.append('char a%d[%d];' % (i, n)); chk.append('(int)((unsigned long)a%d %% 16)' % i)
+            # psABI 3.1.2: an array variable of at least 16 *bytes* is 16-byte aligned, whatever its element type and count
+            et, esz, eal = ch.choice([('char', 1, 1), ('char', 1, 1), ('short', 2, 2), ('int', 4, 4), ('long', 8, 8), ('float', 4, 4), ('double', 8, 8), ('struct { int a; char c; }', 8, 4), ('struct { char c[3]; }', 3, 1)])
+            n = ch.choice([16, 17, 24, 32, 100]) if et == 'char' and ch.bool() else ch.choice([1, 2, 3, 4, 5, 6, 8, 15, 16, 17])
+            dims = '[%d]' % n
+            if ch.int(0, 4) == 0:
+                m = ch.choice([2, 3]); dims = '[%d][%d]' % (m, n); n *= m
+            objs.append('%s a%d%s;' % (et, i, dims)); chk.append('(int)((unsigned long)a%d %% %d)' % (i, 16 if esz * n >= 16 else eal))
+            if ch.bool():
+                objs.append('char c%d; c%d = pad;' % (i, i))        # a byte between the objects moves the next one off a multiple of 16
         elif k == 1:
             al = ch.choice([1, 2, 4, 8, 16, 32, 64])
             if al > 16 and 'D59' in excl:
